@@ -96,10 +96,42 @@ def h15b_overlap(row, col, side, from_neighbour):
     assert second._order > first._order
 
 
+def table43_merged():
+    """4x3 table with B2:B3 merged (anchor (1,1), placeholder (2,1))"""
+    t = make_table(4, 3)
+    m = BorderModel()
+    m.nrows, m.ncols = 4, 3
+    t._model = m
+    for r in t._data:
+        for c in r:
+            c._model = m
+    m._table_data[7] = t._data
+    t.merge_cells("B2:B3")
+    return t
+
+
+def h15c_merged_neighbour(row, col, side, older):
+    """a stroke drawn on a plain cell's edge that borders a merged block is reported, as the opposite side, by the
+    block's cell on that edge; a newer stroke wins over one drawn earlier from the block's side"""
+    t = table43_merged()
+    assume(0 <= row < 4 and 0 <= col < 3)
+    assume(not (col == 1 and 1 <= row <= 2))            # the drawing cell is outside the block
+    dr, dc = DELTA[side]
+    nr, nc = row + dr, col + dc
+    assume(nc == 1 and 1 <= nr <= 2)                    # ... and its edge borders the block
+    first = Border(1.0, RGB(255, 0, 0), "solid")
+    second = Border(3.0, RGB(0, 0, 255), "dashes")
+    if older:
+        t.set_cell_border(nr, nc, OPP[side], first)     # earlier stroke, addressed from the merged cell
+    t.set_cell_border(row, col, side, second)
+    assert side_of(t.cell(row, col), side) is second
+    assert side_of(t.cell(nr, nc), OPP[side]) is second
+
+
 SIDES = ["top", "right", "bottom", "left"]
 OUT = ["style attribute round trip (paragraph / cell style archives: nested protobuf construction and lookup)",
        "background images, fonts", "stroke-run patching in the saved layers (add_stroke beyond its order stamp) and re-derivation on reopen",
-       "borders on merged cells"]
+       "strokes addressed to interior edges of merged blocks"]
 HARNESSES = [
     Harness("H15a", h15a_one_stroke, dict(row=IntDom(), col=IntDom(), side=Cases(SIDES), length=IntDom()),
             bounds="3x3 table, stroke of length 1..2 from any cell on any side (position symbolic)",
@@ -108,4 +140,8 @@ HARNESSES = [
     Harness("H15b", h15b_overlap, dict(row=IntDom(), col=IntDom(), side=Cases(SIDES), from_neighbour=BoolDom()),
             bounds="3x3 table, two strokes on the same edge from either of the two cells sharing it"),
 ]
+HARNESSES.append(
+    Harness("H15c", h15c_merged_neighbour, dict(row=IntDom(), col=IntDom(), side=Cases(SIDES), older=BoolDom()),
+            bounds="4x3 table with a 2x1 merged block; stroke on any exterior edge of the block drawn from the plain neighbour, "
+                   "with or without an earlier stroke drawn from the block's side"))
 PROPERTY = "C15"
